@@ -12,11 +12,13 @@ theorem gen_gcs_prune : Gen.site_gcs_prune_found = true ∧ Gen.gcsPruneSkel = G
 
 theorem gen_gcs_remove : Gen.site_gcs_remove_found = true ∧ Gen.gcsRemoveSkel = GCS.Expected.gcsRemoveSkel := by decide
 
-/-- the name functions: the store's own extension is appended / required, the other one never; same bodies as s3.go's,
-    which `s3Classify` / `nameFromID` model -/
+/-- the name functions: the store's own extension is appended / required, the other one never.  The bodies are compared with
+    the expected skeletons of gcs.go itself; that they once were spelled like s3.go's (`Gen.gcsNamesAsS3`) is NOT demanded: a
+    harmless rewrite of `S3Store.idFromName` (benign/C16-h2) made that conjunct false and the check alarm although nothing about
+    GCS — or S3, whose own facts are extracted by meaning — had changed (session 7) -/
 theorem gen_gcs_names :
     Gen.site_gcs_idfromname_found = true ∧ Gen.site_gcs_namefromid_found = true ∧ Gen.site_gcs_prefix_found = true ∧
-    Gen.gcsNamesAsS3 = true ∧ Gen.gcsIDFromNameSkel = GCS.Expected.gcsIDFromNameSkel ∧
+    Gen.gcsIDFromNameSkel = GCS.Expected.gcsIDFromNameSkel ∧
     Gen.gcsNameFromIDSkel = GCS.Expected.gcsNameFromIDSkel ∧
     Gen.gcsNormalizePrefixSkel = GCS.Expected.gcsNormalizePrefixSkel := by decide
 
